@@ -95,6 +95,7 @@ func streamTextFile(s *stream.Stream, c *streamCtx, op string) error {
 	}
 	file := filepath.Join("cmd", "x", "main.go")
 	mains := []maininfo.MainPackageInfo{{MainDir: "cmd/x", MainFile: file}}
+	noFinalNL := false // the file on disk does not end with a newline (the arrangement is the same)
 	emit := func(seq []textToken, withImport, isMain bool) error {
 		lines := []string{"package main", ""}
 		if withImport {
@@ -106,6 +107,10 @@ func streamTextFile(s *stream.Stream, c *streamCtx, op string) error {
 		}
 		lines = append(lines, "\t_ = x", "}")
 		src := strings.Join(lines, "\n") + "\n"
+		if noFinalNL {
+			src = strings.TrimSuffix(src, "\n")
+			s.Count("file-without-final-newline")
+		}
 		if err := os.WriteFile(file, []byte(src), 0644); err != nil {
 			return err
 		}
@@ -116,7 +121,10 @@ func streamTextFile(s *stream.Stream, c *streamCtx, op string) error {
 			if err != nil {
 				impl = "error " + proto.Enc(err.Error())
 			} else {
-				ol, _ := splitText(out)
+				ol, tl := splitText(out)
+				if tl != "" { // an unterminated last line is a line of the file too
+					ol = append(ol, tl)
+				}
 				impl = strings.TrimRight(proto.B(changed)+" "+proto.EncLines(canonGo(ol)), " ")
 			}
 			s.Case(strings.TrimRight("cleanfile "+proto.EncLines(lines), " "), impl,
@@ -161,6 +169,16 @@ func streamTextFile(s *stream.Stream, c *streamCtx, op string) error {
 					}
 				}
 			}
+		}
+		// the shortest arrangements also in a file whose last line is not terminated
+		if len(prefix) <= 1 && op == "clean" {
+			noFinalNL = true
+			for _, wi := range []bool{true, false} {
+				if err := emit(prefix, wi, false); err != nil {
+					return err
+				}
+			}
+			noFinalNL = false
 		}
 		if len(prefix) == maxLen {
 			return nil
